@@ -125,6 +125,8 @@ def run(ctx, rep):
     for i in range(ctx.n(300, 8000)):
         cfg = M.gen_cfg(rng, color_only=False)
         cfg.d["fileRaw"] = 0; cfg.d["fileOmit"] = 0
+        if i % 4 == 3:
+            cfg.d["hhFragment"] = 0     # hunk-header-style word `omit-code-fragment` (T13; no draw from rng: streams unchanged)
         r = rng.random()
         if r < 0.7:
             # one time in three the kinds are drawn from all shapes gen_file knows (incl. deleted binary file, binary file + mode)
@@ -198,22 +200,40 @@ def run(ctx, rep):
             if src == "plain" and len(got) > len(want) and any(l.startswith("+++ ") and not l.startswith("+++ y/") for l in lines):
                 sig = "plain-diff-plusplus-body-taken-as-header"
             rep.violation(sig, f"file header {j}: got {g!r}, want {w!r} ({len(got)} headers for {len(want)} sections)", case)
-        # hunk headers: one per hunk, carrying the fragment unchanged
-        if not cfg.d["hhRaw"] and not cfg.d["hhOmit"] and cfg.d["hhFragment"] and (cfg.d["hhLineNumber"] or cfg.d["hhFile"]):
+        # hunk headers: one per hunk, carrying the fragment unchanged; showing the path of the hunk's own file section (the
+        # old name for a deleted file) and the new-file start of its own `@@` line, as the style words say (T13)
+        if not cfg.d["hhRaw"] and not cfg.d["hhOmit"] and (cfg.d["hhLineNumber"] or cfg.d["hhFile"]):
+            rep.count("hh-style:" + "+".join(w for w, on in (("file", cfg.d["hhFile"]), ("line-number", cfg.d["hhLineNumber"]),
+                      ("omit-code-fragment", not cfg.d["hhFragment"]), ("label", cfg.d["hunkLabel"] != "")) if on))
             hh = [t for k, t in impl.rows if k == "hunkHeader"]
-            hunks = [h for f in files for h in (f["hunks"] or ([f["combined_hunk"]] if "combined_hunk" in f else []))] + \
-                [None for f in files if f.get("submodule")]
-            hunks = [h for h in hunks if h is not None]
-            nsub = sum(1 for f in files if f.get("submodule"))
+            fhunks = [(f, h) for f in files for h in (f["hunks"] or ([f["combined_hunk"]] if "combined_hunk" in f else []))]
+            fhunks = [(f, h) for f, h in fhunks if h is not None]
+            hunks = [h for _, h in fhunks]
             if len(hh) != len(hunks):
                 if not (src == "plain" and any(l.startswith("+++ ") and not l.startswith("+++ y/") for l in lines)):
                     rep.violation("hunk-header-count", f"{len(hh)} hunk headers for {len(hunks)} hunks", case)
             else:
                 tab = cfg.d["tab"]
-                for t, h in zip(hh, hunks):
+                for t, (f, h) in zip(hh, fhunks):
                     frag = h["frag"].replace("\t", " " * tab) if tab else h["frag"]
-                    if frag.strip() and not t.endswith(frag.rstrip()):
+                    if cfg.d["hhFragment"] and frag.strip() and not t.endswith(frag.rstrip()):
                         rep.violation("hunk-header-fragment", f"hunk header {t!r} does not carry the fragment {frag!r}", case)
+                        break
+                    if not cfg.d["hhFragment"] and frag.strip() and squeeze(frag) in squeeze(t) and squeeze(frag) not in squeeze(f["new"] + f["old"]):
+                        rep.violation("hunk-header:fragment-not-omitted", f"hunk header {t!r} shows the fragment {frag!r} under omit-code-fragment", case)
+                        break
+                    if src != "git" or f["kind"] == "combined" or "nparents" in f or "new" not in h:
+                        continue
+                    path = f["old"] if f["new"] == "/dev/null" else f["new"]
+                    want_prefix = (cfg.d["hunkLabel"] + " " if cfg.d["hunkLabel"] else "") + \
+                        (path if cfg.d["hhFile"] else "") + \
+                        ((":" if cfg.d["hhFile"] else "") + str(h["new"][0]) if cfg.d["hhLineNumber"] else "") + ":"
+                    rep.count("hh-row-checked:" + ("deleted" if f["new"] == "/dev/null" else "renamed" if f["old"] not in (f["new"], "/dev/null") else "same-name"))
+                    if not squeeze(t + " ").startswith(squeeze(want_prefix + " ")[:-1] if want_prefix.endswith(" ") else squeeze(want_prefix)):
+                        shown_other = [g for g in files if g is not f and g.get("new") and cfg.d["hhFile"] and
+                                       squeeze(t).startswith(squeeze((cfg.d["hunkLabel"] + " " if cfg.d["hunkLabel"] else "") + g["new"] + ":"))]
+                        rep.violation("hunk-header:path-of-other-section" if shown_other else "hunk-header:path-or-number-wrong",
+                                      f"hunk header {t!r} of section {f['kind']} ({f['old']!r} -> {f['new']!r}, {h['header']!r}) does not start with {want_prefix!r}", case)
                         break
     # the real binary under --relative-paths: every header names the file as a user in the sub-directory would
     eval_rel(ctx, rep, [rel_case(rng.getrandbits(48)) for _ in range(ctx.n(80, 2000))])
